@@ -48,6 +48,14 @@ Proof.
   unfold rotnorm2 in E. cbn [app] in *. rewrite E. reflexivity.
 Qed.
 
+Lemma SE3_boxplus_len s d : length s = 7%nat -> length d = 6%nat -> length (SE3_boxplus_fun s d) = 7%nat.
+Proof.
+  intros Hs Hd.
+  destruct (Rle_dec ((nth 3 d 0)^2 + (nth 4 d 0)^2 + (nth 5 d 0)^2) 1) as [Hle|Hgt].
+  - rewrite SE3_boxplus_small_taken; auto.
+  - rewrite SE3_boxplus_large_taken; auto. lra.
+Qed.
+
 Lemma small_t (t a : R) : 0 <= a -> Rabs t < / (1 + a) -> t ^ 2 * a <= 1.
 Proof.
   intros Ha Ht. set (d := / (1 + a)) in *.
